@@ -151,6 +151,43 @@ def seeded_faulty(c, rnd):
     return out
 
 
+def seeded_adversarial(c, rnd):
+    """Outside the statement's fault model (drift-level, panics fail): frames whose index / sequence number /
+    epoch field is rewritten or that are cut short, and a restarted sender that reuses the stream id."""
+    out = []
+    sizes = [20, 40, 45, 60, 90, 130, 300, 700]
+    for i in range(40 if c.thorough else 10):
+        mtu = rnd.choice([57, 60, 73, 100, 150])
+        f = mtu - 16
+        pk = [pkt(rnd.choice(sizes), rnd=rnd) for _ in range(rnd.randint(6, 14))]
+        nfr = sum(p["len"] for p in pk) // f + len(pk)
+        sched = []
+        for k in range(1, nfr + 1):
+            if rnd.random() < 0.35:
+                kind = rnd.choice([1, 1, 1, 2, 3, 4])
+                val = {1: rnd.choice([0, 1, 7, 19, 20, f - 1, f, f + 5, 0xfffe, rnd.randint(0, 0xffff)]),
+                       2: rnd.choice([-2, -1, 1, 2, 1000]), 3: rnd.choice([0, 5, 0xfffff]),
+                       4: rnd.choice([0, 1, 19, 20, 39, f - 1])}[kind]
+                sched.append([1, k, kind, val])
+            else:
+                sched.append([1, k, 0, 0])
+        out.append({"mode": "adversarial", "streams": [{"mtu": mtu, "pkts": pk, "plan": plan_for(len(pk), rnd, "drain")}],
+                    "sched": sched})
+    for i in range(12 if c.thorough else 4):
+        ss = []
+        nfr = []
+        for _s in range(2):
+            mtu = rnd.choice([57, 60, 100])
+            pk = [pkt(rnd.choice(sizes), rnd=rnd) for _ in range(8)]
+            ss.append({"mtu": mtu, "pkts": pk, "plan": plan_for(len(pk), rnd, "drain")})
+            nfr.append(sum(p["len"] for p in pk) // (mtu - 16) + len(pk))
+        cut = rnd.randint(1, nfr[0])
+        sched = [[1, k, 0, 0] for k in range(1, cut + 1)] + [[2, k, 0, 0] for k in range(1, nfr[1] + 1)] + \
+                [[1, k, 0, 0] for k in range(cut + 1, nfr[0] + 1)]
+        out.append({"mode": "adversarial", "sameid": 1, "streams": ss, "sched": sched})
+    return out
+
+
 def from_tlc(c, g, rnd):
     scns = []
     seen = set()
@@ -203,7 +240,7 @@ def run(c):
     tlc_scns, total = from_tlc(c, g, rnd)
     if not tlc_scns:
         raise vlib.Infra("generator printed no scenarios")
-    scns = seeded_lossless(c, rnd) + seeded_faulty(c, rnd) + tlc_scns
+    scns = seeded_lossless(c, rnd) + seeded_faulty(c, rnd) + seeded_adversarial(c, rnd) + tlc_scns
     nchunks = 8 if c.thorough else 4
 
     def cost(s):
@@ -220,8 +257,11 @@ def run(c):
         traces.append(t)
     res = _gw.validate_all(c, "SigFramingTrace", "SigFramingTrace.cfg", traces, heap="4g")
     nd = sum(r.out.count('"VERIF-DRIFT"') for r in res)
-    if nd:
-        c.notes.append("drift lines (receiver deviates from the transcription): %d" % nd)
+    nadv = sum(r.out.count('adversarial:emitted-packet-is-not-a-sent-packet') for r in res)
+    if nd - nadv:
+        c.notes.append("drift lines (receiver deviates from the transcription): %d" % (nd - nadv))
+    c.notes.append("adversarial frames / restarted sender with the same stream id (outside the fault model): "
+                   "%d emitted packets that were never sent (drift)" % nadv)
     account(c, traces)
     c.notes.append("scenarios: tlc=%d (of %d enumerated) seeded=%d" % (len(tlc_scns), total, len(scns) - len(tlc_scns)))
     c.cov["exhaustive"] = False
